@@ -69,6 +69,14 @@ def _cases(draw, tier):
     if layer == 'cond':
         return {'kind': 'wf', 'layer': 'cli', 'ast': draw(_EXPR_COND), 'sp': draw(st.sampled_from(['', ' ', ' '])),
                 'form': draw(st.integers(3, 4))}
+    if draw(st.integers(0, 19)) == 0:
+        # a quotient that is large and not whole, divided again: the real quotient, truncated only at the very end
+        big = draw(st.integers(1 << 29, (1 << 50) - 1))
+        ast = ['bin', '/', ['bin', '/', ['num', big, draw(st.sampled_from(['dec', 'hex$']))],
+                            ['num', draw(st.sampled_from([1, 1, 2, 4])), 'dec']], ['num', draw(st.sampled_from([2, 4, 8, 16])), 'dec']]
+        if draw(st.booleans()):
+            ast = ['bin', draw(st.sampled_from(['+', '-', '*'])), ast, ['num', draw(st.integers(0, 3)), 'dec']]
+        return {'kind': 'wf', 'layer': layer, 'ast': ast, 'sp': ' ', 'form': draw(st.integers(0, 2))}
     if draw(st.integers(0, 9)) < 7:
         ast = draw(_EXPR_CLI if layer == 'cli' else _EXPR_API)
         return {'kind': 'wf', 'layer': layer, 'ast': ast, 'sp': draw(st.sampled_from(['', ' ', ' ', '  ', '\t'])),
